@@ -103,8 +103,11 @@ def afqmc(
         )
         block_energy_n = np.array([block_energy_n], dtype="float32")
         block_weight_n = np.array([jnp.sum(prop_data["weights"])], dtype="float32")
+        # a rank whose whole population was killed has weight 0 and an undefined (nan)
+        # block energy: it must contribute nothing to the sum over ranks, not 0 * nan
         block_weighted_energy_n = np.array(
-            [block_energy_n * block_weight_n], dtype="float32"
+            [np.where(block_weight_n > 0, block_energy_n * block_weight_n, 0.0)],
+            dtype="float32",
         )
         total_block_energy_n = np.zeros(1, dtype="float32")
         total_block_weight_n = np.zeros(1, dtype="float32")
@@ -297,9 +300,9 @@ def afqmc(
             elif options["ad_mode"] == "2rdm":
                 global_block_rdm2s[n * size : (n + 1) * size] = gather_rdm2s
             assert gather_weights is not None
-            block_energy_n = np.sum(gather_weights * gather_energies) / np.sum(
-                gather_weights
-            )
+            block_energy_n = np.sum(
+                np.where(gather_weights > 0, gather_weights * gather_energies, 0.0)
+            ) / np.sum(gather_weights)
 
         block_energy_n = comm.bcast(block_energy_n, root=0)
         prop_data = propagator.orthonormalize_walkers(prop_data)
